@@ -4,5 +4,5 @@
 cd /verif
 : > build/seeded.log
 ls -d seeded/C??_m* | while read d; do n=$(basename $d); echo "${n%_*} /verif/$d $n --skip-tests"; done | \
-  xargs -P 5 -L 1 bash -c 'python3 tools/seedtest.py $0 $1 $2 $3 2>&1 | tail -1 >> build/seeded.log'
+  xargs -P 3 -L 1 bash -c 'python3 tools/seedtest.py $0 $1 $2 $3 2>&1 | tail -1 >> build/seeded.log'
 echo DONE >> build/seeded.log
